@@ -13,6 +13,7 @@ Generated files (rewritten only when their content changes, so `make` stays incr
   GenFormulas.v  integer index formulas + unit factors + projected distance/area formulas
   GenCodec.v     from_array / to_array of core_d8 / core_ldd / core_nextxy (tools/gen_codec.py)
   GenUpscale.v   the non-iterative upscaling kernels of upscale.py (tools/gen_upscale.py)
+  GenCore.v      rank, loop_indices, upstream_matrix, idxs_seq, _trace, path, snap, _window of core.py (tools/gen_core.py)
   GenFingerprints.v is not generated; fingerprints go to generated/fingerprints.json
 """
 import ast, hashlib, json, os, sys
@@ -386,4 +387,5 @@ if __name__ == "__main__":
     import gen_loops  # noqa: F401
     import gen_codec  # noqa: F401  (raster codecs -> GenCodec.v)
     import gen_upscale  # noqa: F401  (non-iterative upscaling kernels -> GenUpscale.v)
+    import gen_core  # noqa: F401  (while-loop kernels of core.py -> GenCore.v)
     sys.exit(main())
